@@ -903,11 +903,16 @@ func (l *lexer) scanArithExpr(pos ast.Pos) int {
 		switch r {
 		case '(', ')':
 			// operator
-			if l.scanOp(r) == RAE {
+			switch l.scanOp(r) {
+			case RAE:
 				l.lit()
 				return RAE
+			case LAE:
+				// (both parentheses have been read)
+				l.b.WriteString("((")
+			default:
+				l.b.WriteByte(byte(r))
 			}
-			l.b.WriteByte(byte(r))
 		case '\\', '\'', '"':
 			// quoting
 			l.lit()
